@@ -1,3 +1,118 @@
 import PV.Model.Format
 namespace PV.Lemmas.Format
+open PV.Format
+
+/-- a value below `10^k` has at most `k` decimal digits (given enough fuel). -/
+theorem ndigits_le (fuel : Nat) : ∀ (k v : Nat), 1 ≤ k → k ≤ fuel → v < 10 ^ k → ndigits fuel v ≤ k := by
+  induction fuel with
+  | zero => intro k v h1 h2 _; omega
+  | succ n ih =>
+    intro k v h1 h2 hv
+    unfold ndigits
+    split
+    · exact h1
+    · rename_i h10
+      match k, h1, h2, hv with
+      | 1, _, _, hv => simp at hv; omega
+      | k' + 2, _, h2, hv =>
+        have hdiv : v / 10 < 10 ^ (k' + 1) := by
+          apply Nat.div_lt_of_lt_mul
+          rw [Nat.pow_succ] at hv
+          omega
+        have := ih (k' + 1) (v / 10) (by omega) (by omega) hdiv
+        omega
+
+theorem digits10_le (k v : Nat) (h1 : 1 ≤ k) (h2 : k ≤ 30) (hv : v < 10 ^ k) : digits10 v ≤ k :=
+  ndigits_le 30 k v h1 h2 hv
+
+theorem digits10_le5 (v : Nat) (hv : v < 100000) : digits10 v ≤ 5 :=
+  digits10_le 5 v (by decide) (by decide) (by simpa using hv)
+
+theorem digits10_le8 (v : Nat) (hv : v < 100000000) : digits10 v ≤ 8 :=
+  digits10_le 8 v (by decide) (by decide) (by simpa using hv)
+
+theorem u32_touched_le5 (v : Nat) (h : v < 100000) : (u32 v).2 ≤ 5 := by
+  unfold u32
+  have := digits10_le5 v h
+  split
+  · simpa using this
+  · omega
+
+theorem u32_touched_le10 (v : Nat) : (u32 v).2 ≤ 10 := by
+  unfold u32
+  split
+  · rename_i h8
+    have := digits10_le8 v h8
+    show digits10 v ≤ 10
+    omega
+  · show (if v / 100000000 ≥ 10 then 2 else 1) + 8 ≤ 10
+    split <;> omega
+
+/-- `u64` touches at most 19 bytes below `10^19`, at most 20 below `2^64`. -/
+theorem u64_touched_le19 (v : Nat) (h : v < 10000000000000000000) : (u64 v).2 ≤ 19 := by
+  unfold u64
+  split
+  · rename_i h8
+    have := digits10_le8 v h8
+    show digits10 v ≤ 19
+    omega
+  · split
+    · show 16 ≤ 19
+      omega
+    · show (if v / 10000000000000000 < 10 then 1 else if v / 10000000000000000 < 100 then 2
+            else if v / 10000000000000000 < 1000 then 3 else 4) + 16 ≤ 19
+      have : v / 10000000000000000 < 1000 := by omega
+      split
+      · omega
+      · split
+        · omega
+        · omega
+
+theorem u64_touched_le20 (v : Nat) : (u64 v).2 ≤ 20 := by
+  unfold u64
+  split
+  · rename_i h8
+    have := digits10_le8 v h8
+    show digits10 v ≤ 20
+    omega
+  · split
+    · show 16 ≤ 20
+      omega
+    · show (if v / 10000000000000000 < 10 then 1 else if v / 10000000000000000 < 100 then 2
+            else if v / 10000000000000000 < 1000 then 3 else 4) + 16 ≤ 20
+      split
+      · omega
+      · split
+        · omega
+        · split <;> omega
+
+theorem i32_snd (v : Int) : (i32 v).2 = if v < 0 then (u32 (-v).toNat).2 + 1 else (u32 v.toNat).2 := by
+  unfold i32
+  split <;> rfl
+
+theorem i64_snd (v : Int) : (i64 v).2 = if v < 0 then (u64 (-v).toNat).2 + 1 else (u64 v.toNat).2 := by
+  unfold i64
+  split <;> rfl
+
+theorem floatTouched_le (neg : Bool) (len : Nat) (dp : Int) (hl : 1 ≤ len ∧ len ≤ 17)
+    (hd : -323 ≤ dp ∧ dp ≤ 309) : floatTouched neg len dp ≤ 26 := by
+  unfold floatTouched shortestLen
+  have hs : (if neg = true then 1 else 0 : Nat) ≤ 1 := by split <;> omega
+  generalize (if neg = true then 1 else 0 : Nat) = s at hs
+  simp only []
+  split
+  · split
+    · omega
+    · split <;> omega
+  · have hm : (if len > 1 then len + 1 else 1 : Nat) ≤ 18 := by split <;> omega
+    generalize (if len > 1 then len + 1 else 1 : Nat) = m at hm
+    have hx : (if dp - 1 < 0 then 1 else 0 : Nat) ≤ 1 := by split <;> omega
+    generalize (if dp - 1 < 0 then 1 else 0 : Nat) = x at hx
+    have he : ∀ e : Nat, (if e ≥ 100 then 3 else if e ≥ 10 then 2 else 1 : Nat) ≤ 3 := by
+      intro e; split
+      · omega
+      · split <;> omega
+    have := he (if dp - 1 < 0 then (-(dp - 1)).toNat else (dp - 1).toNat)
+    omega
+
 end PV.Lemmas.Format
